@@ -31,7 +31,8 @@ THEOREMS = ['Stats.c19_mean', 'Stats.c19_M2', 'Stats.c19_var', 'Stats.c19_cov', 
             'Stats.rsInit_refines', 'Stats.rsUpdate_refines', 'Stats.rsUpdateFromIt_refines', 'Stats.rsVar_refines',
             'Stats.rsVar_fresh', 'Stats.rsStd_sq', 'Stats.rsErr_sq', 'Stats.rsConverged_refines',
             'Stats.rcInit_refines', 'Stats.rcUpdate_refines', 'Stats.rcUpdateFromIt_refines', 'Stats.rcCovar_refines',
-            'Stats.forCount_loop', 'Stats.estimateFromRepeats_refines',
+            'Stats.forCount_loop', 'Stats.estimateFromRepeats_loop', 'Stats.estimateFromRepeats_refines',
+            'Stats.loop_fuel', 'Stats.estimateFromRepeats_refines_fuel',
             # ... and the property statements on the translated source
             'Stats.c19_src_var', 'Stats.c19_src_covar', 'Stats.c19_src_stop', 'Stats.c19_src_sample_count']
 ANCHORS = ['welfordCount', 'welfordMean', 'welfordM2', 'statVar', 'convRhs', 'covCount', 'covXmean', 'covYmean', 'covC',
